@@ -151,6 +151,9 @@ def const_state_value(t):
         return ("bool", t[1])
     if t[0] == "agg" and t[1][0] == "adt" and not t[2]:
         return ("variant", t[1][1], t[1][2])
+    # a variant carrying constants only (`Some(true)` used as a three-valued state together with `None`)
+    if t[0] == "agg" and t[1][0] == "adt" and t[2] and all(x[0] == "const" and isinstance(x[1], (bool, int)) for x in t[2]):
+        return ("variant", t[1][1], t[1][2], tuple(x[1] for x in t[2]))
     return None
 
 
@@ -160,6 +163,9 @@ def switch_local(body, bb):
     if t["t"] != "switch":
         return None
     op = t["discr"]
+    if op["o"] in ("copy", "move") and [p_.get("p") for p_ in op["place"]["proj"]] == ["downcast", "field"]:
+        pl = op["place"]
+        return (pl["l"], ("payload", pl["proj"][0].get("name"), pl["proj"][1]["i"]), (), False)
     if op["o"] not in ("copy", "move") or op["place"]["proj"]:
         return None
     l = op["place"]["l"]
@@ -178,6 +184,10 @@ def switch_local(body, bb):
         if len(ds) == 1 and ds[0][2] == "rv" and ds[0][3]["r"] == "use" and ds[0][3]["op"]["o"] in ("copy", "move") and not ds[0][3]["op"]["place"]["proj"]:
             l = ds[0][3]["op"]["place"]["l"]
             continue
+        if len(ds) == 1 and ds[0][2] == "rv" and ds[0][3]["r"] == "use" and ds[0][3]["op"]["o"] in ("copy", "move") and [p_.get("p") for p_ in ds[0][3]["op"]["place"]["proj"]] == ["downcast", "field"]:
+            # a test of the constant a variant of the state carries: `match state { Some(true) => .. }`
+            pl = ds[0][3]["op"]["place"]
+            return (pl["l"], ("payload", pl["proj"][0].get("name"), pl["proj"][1]["i"]), (), neg)
         if len(ds) == 1 and ds[0][2] == "rv" and ds[0][3]["r"] == "unop" and ds[0][3]["uop"] == "Not" and ds[0][3]["a"]["o"] in ("copy", "move") and not ds[0][3]["a"]["place"]["proj"]:
             l = ds[0][3]["a"]["place"]["l"]
             neg = not neg
